@@ -168,6 +168,20 @@ func execChain(prop string, p *Plan, col *kernel.Collector) []kernel.Violation {
 var ErrOracleRejected = errors.New("oracle node rejected generated block")
 
 func (c *chainRun) apply(i int, op Op) {
+	if os.Getenv("VERIF_DEBUG") != "" {
+		defer func() {
+			n := c.nodes[op.Node]
+			if n.BC == nil {
+				return
+			}
+			h := n.BC.CurrentBlock()
+			fmt.Fprintf(os.Stderr, "DEBUG op %d %s node %d %v -> head #%d id %d td %v\n", i, op.Kind, op.Node, op.Blocks, h.NumberU64(), c.u.ByHash[h.Hash()], n.BC.GetTd(h.Hash(), h.NumberU64()))
+			for id := 1; id < len(c.u.Blocks); id++ {
+				b := c.u.Blocks[id]
+				fmt.Fprintf(os.Stderr, "   id %d #%d hasBlock=%v hasState=%v td=%v\n", id, b.NumberU64(), n.BC.HasBlock(b.Hash(), b.NumberU64()), n.BC.HasState(b.Root()), n.BC.GetTd(b.Hash(), b.NumberU64()))
+			}
+		}()
+	}
 	n := c.nodes[op.Node]
 	u := c.u
 	before := n.HeadID()
